@@ -156,19 +156,24 @@ func perms(n int) [][]int {
 	return out
 }
 
+// ethAt is the configured enable height of the eth driver in the configuration being explored
+// (ethEnable, or -1: driver switched off, consulted only by queries without a height context).
+var ethAt int64 = ethEnable
+
 func setup() {
+	ops, fresh, txs, txName, addrs = nil, nil, nil, nil, nil
 	cfg = types.NewChain33Config(types.GetDefaultCfgstring())
 	cfg.SetFork("ForkMultiSignAddress", forkMultiSign)
 	cfg.SetFork("ForkBase58AddressCheck", forkBase58)
 	cfg.SetFork(address.ForkFormatAddressKey, forkFormat)
-	address.Init(&address.Config{DefaultDriver: "btc", EnableHeight: map[string]int64{"eth": ethEnable}})
+	address.Init(&address.Config{DefaultDriver: "btc", EnableHeight: map[string]int64{"eth": ethAt}})
 	crypto.Init(&crypto.Config{EnableHeight: map[string]int64{"ed25519": edEnable}}, cfg.GetSubConfig().Crypto)
 	api := &mocks.QueueProtocolAPI{}
 	api.On("GetConfig").Return(cfg)
 	cclient.SetQueueAPI(api)
 
 	ids, en := address.VerifC19DriverIDs()
-	if len(ids) < 3 || len(ids) > 5 || ids[2] != eth.ID || en[2] != ethEnable {
+	if len(ids) < 3 || len(ids) > 5 || ids[2] != eth.ID || en[2] != ethAt {
 		fmt.Println("HARNESS-ERROR expected address drivers btc/btcMultiSign/eth(/utxo) with eth enabled at", ethEnable, "got", ids, en)
 		os.Exit(2)
 	}
@@ -216,9 +221,9 @@ func setup() {
 	mk("tx[secp256k1,eth-address]", types.EncodeSignID(types.SECP256K1, eth.ID), k1)
 	mk("tx[ed25519,btc-address]", types.EncodeSignID(types.ED25519, btc.NormalAddressID), ek)
 
-	heights := []int64{0, ethEnable - 1, ethEnable, forkMultiSign - 1, forkMultiSign, forkBase58 - 1, forkBase58}
+	heights := []int64{-1, 0, ethEnable - 1, ethEnable, forkMultiSign - 1, forkMultiSign, forkBase58 - 1, forkBase58}
 	if !r.Quick() {
-		heights = append(heights, -1, ethEnable+1, forkMultiSign+1, forkBase58+1)
+		heights = append(heights, ethEnable+1, forkMultiSign+1, forkBase58+1)
 	}
 	for _, kind := range []string{"address.CheckAddress", "dapp.CheckAddress"} {
 		for a := range addrs {
@@ -326,26 +331,31 @@ func main() {
 	r = vx.Start("C19", "model_checking")
 	r.Rule = "BFS over all histories (depth 3 quick / 4 thorough) of queries {address.CheckAddress, dapp.CheckAddress} x 9 addresses (valid btc / multisig / eth lower / eth mixed / utxo outpoint, bad checksum 25 and 26 bytes, bad version, garbage) x heights around the eth enable height and the two address forks x driver-table iteration orders (quick: one per last-visited driver; thorough: all 24), PubKeyToAddr / tx.From at context heights around ForkFormatAddressKey, tx.CheckSign around a crypto enable height; process-global caches kept between queries; state = content of the validity cache and of the btc/multisig/eth public-key caches. Every answer is compared with the answer of the same single query on fresh state under the canonical driver order. distinct = distinct fresh answers"
 	r.Assume = []string{
-		"configuration: address.enableHeight.eth=10, ForkMultiSignAddress=20, ForkBase58AddressCheck=30, ForkFormatAddressKey=40, crypto.enableHeight.ed25519=5 (set through address.Init / crypto.Init / cfg.SetFork)",
+		"two configurations: address.enableHeight.eth=10 and eth=-1 (driver switched off); ForkMultiSignAddress=20, ForkBase58AddressCheck=30, ForkFormatAddressKey=40, crypto.enableHeight.ed25519=5 (set through address.Init / crypto.Init / cfg.SetFork)",
 		"fresh-process state is emulated by purging the package caches through add-only overlay shims; the iteration order of address.drivers is owned by vinstr rule maprange (vrt.MapOrder)",
 		"the crypto context height (SetCurrentBlock) is treated as the h of PubKeyToAddr / tx.From queries",
 		"no executor is registered, so dapp.IsDriverAddress is always false",
 	}
 	r.DistinctSet = "answers"
-	setup()
-	q := mkSeq()
-	if raw, ok := r.Replaying(); ok {
-		var c struct{ Hist []int }
-		json.Unmarshal(raw, &c)
-		if f := q.ReplayHist(c.Hist); f != "" {
-			fmt.Println("replay: FAIL", f)
-			r.Violate("replay", f, c, nil)
-		} else {
-			fmt.Println("replay: ok")
+	// two configurations: eth driver enabled from height 10; eth driver switched off (negative height)
+	for _, at := range []int64{ethEnable, -1} {
+		ethAt = at
+		setup()
+		q := mkSeq()
+		q.Name = fmt.Sprintf("history[eth@%d]", at)
+		if raw, ok := r.Replaying(); ok {
+			var c struct{ Hist []int }
+			json.Unmarshal(raw, &c)
+			if f := q.ReplayHist(c.Hist); f != "" {
+				fmt.Println("replay: FAIL", q.Name, f)
+				r.Violate("replay", f, c, nil)
+			} else {
+				fmt.Println("replay: ok", q.Name)
+			}
+			continue
 		}
-		r.Finish()
+		q.Explore()
 	}
-	q.Explore()
 	r.Floors["answers"] = 8
 	r.Floors["states"] = 50
 	r.Finish()
